@@ -1167,7 +1167,7 @@ func (e *Env) indexAddr(fr *Frame, x *ssa.IndexAddr, st *State) Value {
 	case *Slice:
 		e.panicCheck(fr, "index", st, mkAnd(sx("<=", "0", idx), sx("<", idx, b.Len)))
 		et := b.Typ.Underlying().(*types.Slice).Elem()
-		return &Ptr{Kind: "elem", Ref: b.Arr, Idx: e.maybeName(addTerms(b.Off, idx), sInt), Root: et, Typ: x.Type()}
+		return &Ptr{Kind: "elem", Ref: b.Arr, Idx: e.maybeName(ixTerm(b.Off, idx), sInt), Root: et, Typ: x.Type()}
 	case *Ptr:
 		if b.Kind == "arr" {
 			at := b.Root.Underlying().(*types.Array)
@@ -1607,6 +1607,18 @@ func (e *Env) ghostAt(fr *Frame, kind, arg string, ops []Value, st *State) {
 			vars[fmt.Sprintf("op%d", i)] = o
 		}
 		ctx := &SpecCtx{e: e, st: st, old: fr.entrySt, vars: vars, pkg: e.w.typesPkg(fr.item.Pkg)}
+		if g.Assume != nil && g.Assert {
+			t := ctx.boolTerm(g.Assume)
+			e.ghostAsserts++
+			e.oblige("assert", fmt.Sprintf("%s-%s#%d", kind, arg, e.ghostAsserts), st.pc, t)
+			e.assume(mkImp(st.pc, t))
+			continue
+		}
+		if g.Assume != nil {
+			e.assume(mkImp(st.pc, ctx.boolTerm(g.Assume)))
+			e.trust("assumed in " + fr.fn.Name() + " at " + kind + " " + arg + ": " + g.AssumeText)
+			continue
+		}
 		e.emitFor(&Item{Emits: []*Emit{g.Emit}}, ctx, st)
 	}
 }
